@@ -63,6 +63,48 @@ def coincidence_seeds(rng, nbytes, k=1):
         out.append(("bytesum0", bytes(b)))
     return [(c, s_) for c, s_ in out if any(s_)]
 
+_SRCCONST = {}
+def source_constant_seeds(crate, nbytes, limit=60):
+    """seeds built from the CURRENT source's own magic constants (hex literals of at least 5 digits, in textual order; the
+    unit-test module excluded): every window of consecutive constants that fills the seed, as little-endian 32- and 64-bit
+    words, taken as is, negated (x + c = 0 cancels an additive constant), complemented, and xor-ed into zero — the inputs on
+    which an algorithm's own constants cancel.  Returns [(class, bytes)], never all-zero."""
+    import glob, re
+    key = (crate, nbytes)
+    if key in _SRCCONST:
+        return _SRCCONST[key][:limit]
+    out, seen = [], set()
+    for f in sorted(glob.glob(os.path.join(REPO, crate, "src", "*.rs"))):
+        try:
+            txt = re.sub(r"//[^\n]*", "", open(f).read())
+        except OSError:
+            continue
+        txt = re.split(r"#\[cfg\(test\)\]\s*mod\s+\w+\s*\{", txt)[0]
+        lits = [int(m.group(1).replace("_", ""), 16) for m in re.finditer(r"(?<![\w.])0x([0-9a-fA-F_]{5,})(?:[iu](?:32|64|size))?\b", txt)]
+        for wsz in (4, 8):
+            if nbytes % wsz:
+                continue
+            n = nbytes // wsz
+            mod = 1 << (8 * wsz)
+            cs = [v for v in lits if v < mod and (wsz == 4 or v >= (1 << 32))]
+            for i in range(0, max(0, len(cs) - n + 1)):
+                win = cs[i:i + n]
+                for tag, ws in (("asis", win), ("neg", [(-v) % mod for v in win]), ("not", [v ^ (mod - 1) for v in win])):
+                    b = b"".join(w.to_bytes(wsz, "little") for w in ws)
+                    if any(b) and b not in seen:
+                        seen.add(b); out.append((f"srcconst-{tag}{8 * wsz}", b))
+            # a single constant (negated) in one word, the rest zero
+            for v in cs[:24]:
+                for k in range(n):
+                    ws = [0] * n; ws[k] = (-v) % mod
+                    b = b"".join(w.to_bytes(wsz, "little") for w in ws)
+                    if any(b) and b not in seen:
+                        seen.add(b); out.append((f"srcconst-one-neg{8 * wsz}", b))
+    # windows first (they are the ones that can cancel a whole constant block), round-robin over the transforms
+    out.sort(key=lambda cb: (cb[0].startswith("srcconst-one"),))
+    _SRCCONST[key] = out
+    return out[:limit]
+
 def pick_seed(rng, nbytes):
     """mostly random, often structured: one bit, one byte, one zero word, repeated word, all ones, high bits"""
     r = rng.random()
@@ -157,7 +199,7 @@ def new_literals(maxv=1 << 64):
                     txt = re.sub(r"//[^\n]*", "", open(f).read())
                 except OSError:
                     continue
-                txt = txt.split("#[cfg(test)]")[0]
+                txt = re.split(r"#\[cfg\(test\)\]\s*mod\s+\w+\s*\{", txt)[0]       # the unit-test module at the end of a file
                 for m in re.finditer(r"(?<![\w.])(0x[0-9a-fA-F_]+|0b[01_]+|\d[\d_]*)(?:[iu](?:8|16|32|64|128|size))?\b", txt):
                     try:
                         out.add(int(m.group(1).replace("_", ""), 0))
@@ -276,6 +318,9 @@ def native_cases(ctx, gens, nrand_q, nrand_t, steps_basis=3, steps_rand=24):
             for v in (0, 1, MASK64, 1 << 63, PHI, 1 << 32, 0xffffffff):
                 for j in range(0, 9):
                     classes.append(("counter-special", ((v - j * PHI) & MASK64).to_bytes(8, "little")))
+        crate = "rand_xorshift" if g == "XorShiftRng" else "rand_xoshiro"
+        sc = source_constant_seeds(crate, info["seed"], limit=5000)
+        classes += sc if ctx.thorough else ctx.rng.sample(sc, min(len(sc), 24))
         if info["linear"]:
             sp = special_states(ctx.rng, g, k=ctx.scale(1, 4))
             classes += sp
@@ -324,6 +369,7 @@ def tie_C02(ctx):
     for _ in range(ctx.scale(40, 600)):
         seeds.append(("random", rand_bytes(rng, 32)))
     seeds += coincidence_seeds(rng, 32, k=ctx.scale(2, 10))
+    seeds += source_constant_seeds("rand_hc", 32, limit=ctx.scale(40, 400))
     # seeds on which a small-constant addition of the key/IV expansion carries out of 32 bits (found once by
     # tools/gen_hc128_carry.py): they separate wrapping from saturating / checked arithmetic
     seeds += hc128_edge_seeds(ctx, n_carry=ctx.scale(40, 400))
@@ -371,6 +417,7 @@ def tie_C03(ctx):
         for _ in range(ctx.scale(30, 500)):
             seeds.append(("random", rand_bytes(rng, 32)))
         seeds += coincidence_seeds(rng, 32, k=ctx.scale(3, 12))
+        seeds += source_constant_seeds("rand_isaac", 32, limit=ctx.scale(90, 2000))
         for cls, s in seeds:
             blocks = rng.choice([1, 3, 3, 5, 24])
             c = [f"new 0 {g} seed {s.hex()}", f"{nat} 0", f"fill 0 {blocks * 256 * wbytes}", "u32 0", "u64 0"]
@@ -468,6 +515,22 @@ def tie_C05(ctx):
                         c += [f"{nat} 1"] * need
                         cases.append(c); meta.append((g, ops, len(ops), ts, need))
                         ctx.dist[f"{g}:index={k},half={half},fill=block-multiple"] += 1
+        # many whole blocks from the block edges (bulk paths with a threshold of several blocks), with and without a pending half;
+        # block counts also from the literals a change introduced
+        many = [4, 5, 8, 16, 33] + [L for L in new_literals(64) if L > 3][:4]
+        for k in (0, blk - 1, blk):
+            for half in ([False, True] if info["cls"] == "block64" else [False]):
+                for m in (many if ctx.thorough else rng.sample(many[:5], 3) + many[5:]):
+                    for d in ((0, wb, -wb) if ctx.thorough else (0,)):
+                        for tail in (["u32"], ["u64"]):
+                            ops = [nat] * k + (["u32"] if half else []) + [f"fill {m * blk * wb + d}"] + tail
+                            seed = rand_bytes(rng, info["seed"])
+                            need = words_needed(g, ops)
+                            c = [f"new 0 {g} seed {seed.hex()}", "clone 1 0"] + op_lines(0, ops) + [f"{nat} 0"]
+                            ts = len(c)
+                            c += [f"{nat} 1"] * need
+                            cases.append(c); meta.append((g, ops, len(ops), ts, need))
+                            ctx.dist[f"{g}:fill of many whole blocks from a block edge"] += 1
     outs = ctx.real("projection(all 19 deterministic generators): history on subject, native-only twin", cases)
     # ask the executable Lean specification for the projection of the twin's *real* stream
     pcases = []
@@ -1476,6 +1539,18 @@ def tie_C12(ctx):
         deltas = [1234] + [1000] * (65536 + rng.randrange(1, 40)) + [1007, 1019, 1051, 1004, 977, 1313, 2222, 3131, 4000, 4700]
         cases.append([f"timer 0 {rd_hex(meas_script(rng, deltas))}", "jit 1 0", "rounds 1 2", "u64 1", "calls 0", "pool 1"])
         ctx.dist["65536+ consecutive stuck measurements"] += 1
+    # bounds a change introduced (integer literals that are not in the pinned sources): a frozen clock for exactly that many
+    # (and a few more / fewer) consecutive measurements inside one collection, after which the timer recovers
+    for L in [v for v in new_literals(1 << 22) if v >= 64][:4]:
+        for n in (L - 1, L + 2):
+            t0 = rng.getrandbits(40)
+            pre = meas_script(rng, [rng.randrange(1, 9000) for _ in range(3)], t0=t0)
+            post, t = [], pre[-2]
+            for _ in range(30):
+                t += rng.randrange(1, 90000); post += [t, rng.getrandbits(64), rng.getrandbits(64)]
+            rs = rd_hex(pre[:-1]) + f",{pre[-2]:x}*{3 * n + 1}," + rd_hex(post)
+            cases.append([f"timer 0 {rs}", "jit 1 0", "rounds 1 2", "u64 1", "calls 0", "pool 1", "u64 1", "calls 0"])
+            ctx.dist["frozen clock for a harvested number of measurements"] += 1
     h, m = ctx.absolute("JitterRng on scripted timers: results, pool and number of readings consumed vs model", cases,
                         stop_at_blocked=True)
     nb = sum(1 for o in h if "blocked" in o)
@@ -1892,6 +1967,28 @@ def tie_C14(ctx):
                 break
             if v == "blocked":
                 break
+    # the same JitterRng cases with the crate's optional `log` feature and a logger installed at Trace level (arguments of
+    # trace!/debug!/warn! are evaluated only then): diagnostics must not be able to panic either
+    ok, log_, exe = harness_build(features="jlog", target_dir=os.path.join(HARNESS, "target-jlog"))
+    if ok:
+        jc = [c for c in cases if c and c[0].startswith("timer ")]
+        jo = run_chunks(exe, jc)
+        ctx.dist["config:log-feature+trace-logger"] = len(jc)
+        ctx.evaluations += len(jc)
+        for c, o in zip(jc, jo):
+            for cmd, v in zip(c, o):
+                if v == "panic" and not (cmd.startswith("rounds ") and cmd.endswith(" 0")):
+                    ctx.fail("panic", f"`{cmd[:60]}` panicked with the `log` feature and a Trace-level logger installed", c,
+                             expected="no panic", actual="panic")
+                    break
+                if v == "blocked":
+                    break
+            else:
+                continue
+            if ctx.failures:
+                break
+    else:
+        ctx.notes.append("harness build with rand_jitter/log failed: " + log_[-300:])
 
 # ------------------------------------------------------------------ C15: pool mixing bijective
 def tie_C15(ctx):
@@ -2288,6 +2385,8 @@ def core_level(ctx, gens):
             seed = pick_seed(rng, info["seed"])
             for k in (1, 2, 3, rng.randrange(4, 9)):
                 c = [f"core {g} {seed.hex()} {k} fresh", f"core {g} {seed.hex()} {k} dirty", f"core {g} {seed.hex()} {k} same",
+                     f"core {g} {seed.hex()} {k} due", f"core {g} {seed.hex()} {k} due-first", f"core {g} {seed.hex()} {k} due-last",
+                     f"core {g} {seed.hex()} {k} next",
                      f"new 0 {g} seed {seed.hex()}", f"fill 0 {(k - 1) * blk * wb}", f"fill 0 {blk * wb}"]
                 cases.append(c); meta.append((g, k, wb))
                 ctx.dist[f"{g}:core-level generate"] += 1
@@ -2296,11 +2395,14 @@ def core_level(ctx, gens):
         if o[0] in ("unsupported", "bad-op"):
             continue
         # the harness prints words big-endian; the wrapper's fill is little-endian bytes
-        raw = bytes.fromhex(o[5]) if o[5] not in ("-", "panic") else b""
+        raw = bytes.fromhex(o[9]) if o[9] not in ("-", "panic") else b""
         want = "".join(raw[i:i + wb][::-1].hex() for i in range(0, len(raw), wb))
-        if not (o[0] == o[1] == o[2]):
+        modes = ["fresh", "dirty", "reused", "holding the due block", "due block with another first word", "due block with another last word",
+                 "holding the block after the due one"]
+        bad = next((i for i in range(1, 7) if o[i] != o[0]), None)
+        if bad is not None:
             ctx.fail("core-generate", f"{g}: the block produced by generate() depends on the previous contents of the caller's result "
-                     f"buffer (block {k}: fresh / dirty / reused buffers give different words)", c, expected=o[0][:64], actual=(o[1] if o[1] != o[0] else o[2])[:64])
+                     f"buffer (block {k}: a fresh buffer and one {modes[bad]} give different words)", c, expected=o[0][:64], actual=o[bad][:64])
         elif o[0] != want:
             ctx.fail("core-generate", f"{g}: block {k} of the core driven directly differs from block {k} handed out by the wrapper", c,
                      expected=want[:64], actual=o[0][:64])
@@ -2490,13 +2592,37 @@ def tie_C19(ctx):
         worlds.append([["jitnew", "jitnew"],
                        [f"timer 11 {rd_hex(rs)}", "jit 1 11", "u64 1", "calls 11", "u32 1", "calls 11"]])
         ctx.dist["world:JitterRng::new()-then-fresh-jitter"] += 1
+    # several JitterRng instances, each on its own scripted timer, whose measurements sit exactly ON the boundaries of the
+    # stuck test (first real delta = 2 x priming delta, repeated deltas, arithmetic runs): whether a measurement is
+    # accepted then depends on every bit of the per-collection scratch state, so scratch state that survives a collection
+    # and is shared (per thread, per process) shows as a different number of readings consumed / a different value.
+    # Half of these worlds run all instances on ONE worker thread (thread-local state), half move between threads.
+    one_thread = set()
+    for w in range(ctx.scale(24, 200)):
+        n = rng.randrange(2, 5)
+        gens = []
+        for k in range(n):
+            rs = []
+            for call in range(4):
+                d0 = rng.randrange(1, 50000)
+                d1 = rng.choice([2 * d0, 2 * d0, d0, 2 * d0 + 1, rng.randrange(1, 50000)])
+                ds = [d0, d1] + rng.choice([stuck_pattern_deltas(rng, 8), [rng.randrange(1, 90000) for _ in range(8)]])
+                rs += meas_script(rng, ds)
+            rs += good_readings(rng, 60)
+            r = rng.choice([1, 1, 2, 3])
+            gens.append([f"timer {k + 10} {rd_hex(rs)}", f"jit {k} {k + 10}", f"rounds {k} {r}", f"u64 {k}", f"calls {k + 10}",
+                         f"u64 {k}", f"calls {k + 10}", f"u32 {k}", f"u32 {k}", f"calls {k + 10}", f"fill {k} 9", f"calls {k + 10}"])
+        if w % 2 == 0:
+            one_thread.add(len(worlds))
+        worlds.append(gens)
+        ctx.dist["world:jitter-instances-on-stuck-boundaries" + ("-one-thread" if w % 2 == 0 else "")] += 1
     solo_cases, inter_cases, maps = [], [], []
-    for gens in worlds:
+    for wi, gens in enumerate(worlds):
         for seq in gens:
             solo_cases.append(seq)
         idx = [0] * len(gens)
         order = []
-        nthreads = rng.randrange(2, 9)
+        nthreads = 1 if wi in one_thread else rng.randrange(2, 9)
         sequential = gens and gens[0] and gens[0][-1] in ("testtimer 0", "jitnew")
         while any(i < len(s) for i, s in zip(idx, gens)):
             live = [j for j in range(len(gens)) if idx[j] < len(gens[j])]
